@@ -16,25 +16,25 @@ import (
 
 // Scenario is one closed system + bounds + oracles.
 type Scenario struct {
-	Name    string     `json:"name"`
-	Cfg     hdr.Config `json:"config"`
-	N       int        `json:"max_submissions"`  // bound on submissions of new headers
-	M       int        `json:"max_maintenance"`  // bound on maintenance operations
-	Maint   []hdr.Op   `json:"maintenance_ops"`  // maintenance alphabet
-	Subs    int        `json:"max_subscribers"`  // bound on subscribe operations
-	Marks   int        `json:"max_marks"`        // bound on mark/unmark operations
-	Slots   []string   `json:"slots"`            // child slots offered per parent (default a,b,H)
-	Attach  []int      `json:"attach,omitempty"` // base worlds: base heights (relative to base tip, <= 0) where forks may start
-	Probes  bool       `json:"probes"`           // add duplicate / orphan submissions as operations
-	Grows   int        `json:"max_grow_ops,omitempty"` // bound on "grow" operations (extend the best chain by GrowBy headers at once)
-	GrowBy  int        `json:"grow_by,omitempty"`
-	GrowSides  int     `json:"max_growside_ops,omitempty"` // bound on "growside" operations (extend the heaviest side leaf by GrowSideBy double-work headers)
-	GrowSideBy int     `json:"growside_by,omitempty"`
-	OnlyTipParents int `json:"only_tip_parents,omitempty"` // offer children only for the last k accepted headers (tall prefix chains)
-	ForeignProbes bool `json:"foreign_probes,omitempty"` // offer the synthetic foreign split headers with unknown parents too
-	WorkProbe bool     `json:"work_probe,omitempty"` // add a submission with proof-of-work checking switched on
-	MaxTime time.Duration `json:"-"`
-	oracles []oracle
+	Name           string        `json:"name"`
+	Cfg            hdr.Config    `json:"config"`
+	N              int           `json:"max_submissions"`        // bound on submissions of new headers
+	M              int           `json:"max_maintenance"`        // bound on maintenance operations
+	Maint          []hdr.Op      `json:"maintenance_ops"`        // maintenance alphabet
+	Subs           int           `json:"max_subscribers"`        // bound on subscribe operations
+	Marks          int           `json:"max_marks"`              // bound on mark/unmark operations
+	Slots          []string      `json:"slots"`                  // child slots offered per parent (default a,b,H)
+	Attach         []int         `json:"attach,omitempty"`       // base worlds: base heights (relative to base tip, <= 0) where forks may start
+	Probes         bool          `json:"probes"`                 // add duplicate / orphan submissions as operations
+	Grows          int           `json:"max_grow_ops,omitempty"` // bound on "grow" operations (extend the best chain by GrowBy headers at once)
+	GrowBy         int           `json:"grow_by,omitempty"`
+	GrowSides      int           `json:"max_growside_ops,omitempty"` // bound on "growside" operations (extend the heaviest side leaf by GrowSideBy double-work headers)
+	GrowSideBy     int           `json:"growside_by,omitempty"`
+	OnlyTipParents int           `json:"only_tip_parents,omitempty"` // offer children only for the last k accepted headers (tall prefix chains)
+	ForeignProbes  bool          `json:"foreign_probes,omitempty"`   // offer the synthetic foreign split headers with unknown parents too
+	WorkProbe      bool          `json:"work_probe,omitempty"`       // add a submission with proof-of-work checking switched on
+	MaxTime        time.Duration `json:"-"`
+	oracles        []oracle
 }
 
 // oracle is one property's check of a transition: pre runs in the state before the last
@@ -323,7 +323,7 @@ func main() {
 		total.Samples = append(total.Samples, samples[:minInt(4, len(samples))]...)
 	}
 	ev := &mc.Evidence{PropertyID: *prop, Tier: *tier, Level: level(*prop),
-		Coverage: mc.ModelCheckingCoverage(total, extra),
+		Coverage:    mc.ModelCheckingCoverage(total, extra),
 		Assumptions: assumptions(*prop), Wall: time.Since(start).Seconds()}
 	if ev.Level == "fault_enumeration" {
 		ev.Coverage["evaluations"] = total.Counters["crash_points"]
